@@ -92,7 +92,7 @@ def extract(ctx):
     unres = txt.split("def unresolved")[1]
     unknown += ["unresolved: " + a + " in " + f for f, a in re.findall(r'\("([^"]*)", "([^"]*)"\)', unres)]
     acc = re.findall(r'\("([^"]*)", "([^"]*)"\)', txt.split("def observerAccesses")[1].split("def ownWrites")[0])
-    cov["fact_debugger_is_read_only"] = "unknown" if unknown else "established-or-refuted-by-lean (observer_accesses_allowed, own_writes_locked, debugger_read_at_eval_time)"
+    cov["fact_debugger_is_read_only"] = "unknown" if unknown else "established-or-refuted-by-lean (observer_accesses_allowed, own_writes_locked, own_reads_locked, visit_returns_nil, debugger_read_at_eval_time)"
     cov["fact_accesses"] = sorted(set(a for _, a in acc))
     cov["fact_debugger_uses"] = sorted(set(a for _, a in re.findall(r'\("([^"]*)", "([^"]*)"\)', txt.split("def debuggerUses")[1].split("def debuggerFields")[0])))
     cov["fact_functions_reachable"] = len(re.findall(r'"', txt.split("def reachable")[1].split("\n")[0])) // 2
